@@ -3,12 +3,14 @@ package h
 import (
 	"errors"
 	"fmt"
+	"os"
 	"strings"
 	"time"
 
 	"github.com/mgtv-tech/redis-GunYu/syncer"
 
 	"verifsim/simredis"
+	"verifsim/simrt"
 )
 
 // C19 — cluster replay reaches each key's slot owner and keeps per-key order. DESIGN.md §3 C19.
@@ -16,8 +18,13 @@ import (
 // state machine (stable -> migrating/importing -> moved; keys move one by one, so ASK and MOVED occur between
 // and during batches).
 
+// c19Resets (SIM_C19_RESETS=1, exploration only, not part of the registered check): also reset node connections with
+// requests in flight. Connection loss is not in C19's quantifier (streams x layouts x slot migrations); what it exposes is
+// recorded in DESIGN.md §7.4 as a by-product.
+var c19Resets = os.Getenv("SIM_C19_RESETS") == "1"
+
 func init() {
-	Register(&PropertyDef{ID: "C19", Strata: []string{"nontxn", "nontxn-pipeline", "txn", "nontxn-stable", "txn-stable"}, Run: runC19, StepCap: 30000})
+	Register(&PropertyDef{ID: "C19", Strata: []string{"nontxn", "nontxn-pipeline", "txn", "nontxn-stable", "txn-stable", "nontxn-crossnode"}, Run: runC19, StepCap: 30000})
 }
 
 func runC19(r *Run, stratum string) *Violation {
@@ -34,6 +41,13 @@ func runC19(r *Run, stratum string) *Violation {
 	cfg.ClusterAddrs = clusterAddrs
 	cfg.DBM = DBMap{TargetDb: -1}
 	stable := hasWord(stratum, "stable")
+	// crossnode: the stream (standalone source) holds ONE multi-key command whose keys live on two target nodes. The
+	// cluster client cannot route it (ErrCrossSlots); allowed outcomes: it is executed (per node) or the replay reports
+	// an error — never a silent loss, i.e. the stored position never covers it while no node has executed it.
+	cross := hasWord(stratum, "crossnode")
+	if cross {
+		stable = true
+	}
 
 	// key pool over a handful of slots. Transactional mode is only offered by the tool when one source shard maps
 	// onto ONE target node (the syncer then also picks a checkpoint key inside that node's slots), so in the
@@ -100,7 +114,32 @@ func runC19(r *Run, stratum string) *Violation {
 		}
 	}
 	n := 2 + g.Choose("nitems", max)
-	for len(st.Items) < n {
+	crossAt, crossItem := -1, -1
+	var crossEnd int64
+	if cross {
+		crossAt = 1 + g.Choose("crossat", n)
+	}
+	nodeOf := func(k []byte) int { return simredis.HashSlot(k) * len(clusterAddrs) / simredis.NumSlots }
+	for len(st.Items) < n || (cross && crossItem < 0) {
+		if cross && crossItem < 0 && len(st.Items) >= crossAt {
+			ka := keys[g.Choose("crosska", len(keys))]
+			var kb []byte
+			for _, k := range keys {
+				if nodeOf(k) != nodeOf(ka) {
+					kb = k
+					break
+				}
+			}
+			for i := 0; kb == nil; i++ {
+				if c := []byte(fmt.Sprintf("{x%d}k", i)); nodeOf(c) != nodeOf(ka) {
+					kb = c
+				}
+			}
+			crossItem = len(st.Items)
+			add(KCmd, 0, "del", string(ka), string(kb))
+			crossEnd = off
+			continue
+		}
 		switch g.Weighted("kind", []int{12, 2, 1}) {
 		case 0:
 			biz(0, keys[g.Choose("key", len(keys))])
@@ -118,6 +157,16 @@ func runC19(r *Run, stratum string) *Violation {
 		}
 	}
 	expected := Reference(st, 0, cfg.DBM, nil)
+	if crossItem >= 0 {
+		kept := expected[:0]
+		for _, e := range expected {
+			if e.Src != crossItem {
+				kept = append(kept, e)
+			}
+		}
+		expected = kept
+	}
+	crossExecuted := false
 	expIdx := map[string]int{}
 	for i, e := range expected {
 		expIdx[string(e.Args[len(e.Args)-1])] = i
@@ -147,6 +196,7 @@ func runC19(r *Run, stratum string) *Violation {
 	scanned := 0
 	lastPos := map[string]int{} // per key: position (in the key's subsequence) of the last executed command
 	maxPos := map[string]int{}
+	fresh := map[string]bool{} // per key: nothing executed yet since the last reported restart
 	for k := range perKey {
 		lastPos[k] = -1
 		maxPos[k] = -1
@@ -172,6 +222,10 @@ func runC19(r *Run, stratum string) *Violation {
 			case "select", "ping", "info", "cluster", "command", "exec", "multi", "asking":
 				continue
 			}
+			if cross && e.Name == "del" {
+				crossExecuted = true
+				continue
+			}
 			i, ok := expIdx[string(e.Args[len(e.Args)-1])]
 			if !ok || expected[i].Name != e.Name || !argsEqual(expected[i].Args, e.Args) {
 				setV("C19.invented", "a node executed a command the stream does not contain", "node %d executed %s", e.Node, e.Exec.String())
@@ -180,10 +234,21 @@ func runC19(r *Run, stratum string) *Violation {
 			k := string(e.Args[0])
 			// owner-at-that-time is enforced by the double; double-check the slot owner for stable slots
 			p := posInKey[i]
+			if fresh[k] {
+				// first command of this key after a reported restart: the resumed run may begin anywhere at or before
+				// what the key had already received (rewind), not beyond it
+				fresh[k] = false
+				lastPos[k] = p - 1
+				if p > maxPos[k]+1 {
+					lastPos[k] = maxPos[k]
+				}
+			}
 			if p > lastPos[k]+1 {
 				mi := perKey[k][lastPos[k]+1]
 				missing := expected[mi]
 				sig := "per-key order broken: a command took effect before its predecessor on the same key"
+				// pipelined sending: the predecessor may still be queued at the node a stale slot map routed it to (its
+				// MOVED answer comes later) while the next batch, routed by the refreshed map, already executes
 				if _, red := redirected[mi]; !stable && (red || cfg.Pipeline) {
 					sig = "cluster target during slot migration: a redirected or stale-routed command was overtaken by a later, already pipelined command of the same key"
 				}
@@ -245,7 +310,36 @@ func runC19(r *Run, stratum string) *Violation {
 		return acts
 	}
 
+	// connection resets: a node drops a connection with requests in flight, a drawn prefix of which still executes
+	resets := 0
+	maxResets := g.Choose("nresets", 3)
+	resetActions := func() []pipeAction {
+		if !c19Resets || resets >= maxResets || l.getPhase() != 1 {
+			return nil
+		}
+		var cand []readyConn
+		for _, rc := range l.ready() {
+			if rc.node.PendingCount(rc.ss) > 0 {
+				cand = append(cand, rc)
+			}
+		}
+		if len(cand) == 0 {
+			return nil
+		}
+		return []pipeAction{{"conn-reset", 1, func() {
+			s := r.Sched()
+			rc := cand[s.Choose("resetconn", len(cand))]
+			n := rc.node.PendingCount(rc.ss)
+			k := s.Choose("reset_exec_more", n+1)
+			resets++
+			r.W.Fault("conn_reset")
+			done := rc.node.KillSession(rc.ss, k)
+			r.Logf("RESET %s %s: %d pending, %d still executed", rc.node.Addr, rc.ss.LabelString(), n, done)
+		}}}
+	}
+
 	restarts := 0
+	crossReported := 0
 	txnEnded := false
 	for r.BeginStep() {
 		r.Settle()
@@ -266,6 +360,13 @@ func runC19(r *Run, stratum string) *Violation {
 				r.W.Fault("reported_restart")
 				txnEnded = true
 				break
+			}
+			if cross && l.sendErr != nil && l.fedTo >= crossEnd {
+				crossReported++
+				r.W.Fault("reported_restart")
+				if crossReported >= 2 {
+					break
+				}
 			}
 			restartable := errors.Is(l.sendErr, syncer.ErrRedisTypologyChanged) || errors.Is(l.sendErr, syncer.ErrRestart) || l.sendErr != nil || l.spErr != nil
 			if !restartable || restarts > 8 {
@@ -290,14 +391,14 @@ func runC19(r *Run, stratum string) *Violation {
 			l.start()
 			// after a restart commands are replayed from the stored position: per-key rewind allowed
 			for k := range lastPos {
-				lastPos[k] = -1 // rewind-only: the resumed run may start anywhere at or before maxPos
+				fresh[k] = true
 			}
 			continue
 		}
 		if l.getPhase() == 1 && l.remaining() == 0 && len(l.ready()) == 0 && len(l.topo.Migrating) == 0 {
 			break
 		}
-		l.step(migActions())
+		l.step(append(migActions(), resetActions()...))
 	}
 	checkTxnEnd := func() {
 		// stored position (checkpoint hash on whichever node holds it) must cover only executed commands
@@ -329,6 +430,46 @@ func runC19(r *Run, stratum string) *Violation {
 	}
 	if txnEnded && viol == nil {
 		checkTxnEnd()
+		l.stop()
+		return viol
+	}
+	if cross {
+		if viol == nil {
+			// let the checkpoint ticker fire, serve what is in flight, then judge the stored position
+			for i := 0; i < 30 && l.getPhase() == 1; i++ {
+				r.Settle()
+				for _, rc := range l.ready() {
+					rc.node.Step(rc.ss)
+				}
+				scan()
+				r.Advance(cfg.CpTicker + cfg.BatchTicker + 50*time.Millisecond)
+			}
+			r.Settle()
+			scan()
+			if l.getPhase() == 2 && l.sendErr != nil {
+				crossReported++
+			}
+			var stored int64 = -1
+			for _, nd := range l.topo.Nodes {
+				if o := nd.Get(0, cpKey); o != nil && o.T == 'h' {
+					if v, ok := o.Hash[l.runID+"_offset"]; ok {
+						var x int64
+						fmt.Sscanf(string(v), "%d", &x)
+						if x > stored {
+							stored = x
+						}
+					}
+				}
+			}
+			it := st.Items[crossItem]
+			if viol == nil && !crossExecuted && stored >= crossEnd {
+				setV("C19.lost", "a cross-node multi-key command was silently dropped", "the stored position %d covers [%s] (source item %d, ends at %d) whose keys live on two nodes and which no node executed; reported errors so far: %d (last Send error: %v)", stored, fmtCmd(it.Name, it.Args), crossItem, crossEnd, crossReported, l.sendErr)
+			}
+			if !crossExecuted && crossReported > 0 {
+				simrt.Probe("c19_crossnode_reported")
+			}
+		}
+		r.NonTriv = len(expected) >= 2
 		l.stop()
 		return viol
 	}
@@ -365,7 +506,7 @@ func runC19(r *Run, stratum string) *Violation {
 				}
 			}
 			for k := range lastPos {
-				lastPos[k] = -1
+				fresh[k] = true
 			}
 			l.phase = 0
 			l.start()
